@@ -119,7 +119,7 @@ def read_domain(lines, den):
         f = ln.split(",")
         if len(f) != 8:
             return "abbreviated_timing_point_line"
-        if float(f[1]) == 0 or f[6] not in ("0", "1") or int(f[7]) not in (0, 1):
+        if float(f[1]) == 0 or f[6] not in ("0", "1") or not (0 <= int(f[7]) <= 15):   # effects is a bit field: 1 kiai, 8 omit first bar line
             return "zero_beat_length_or_effect_bits"
     if any(_num(b["bpm"]) for b in den["bpms"]) or any(_num(s["multiplier"]) for s in den["svs"]):
         return "non_finite_value"
